@@ -44,7 +44,8 @@ def gen_history(rng):
     steps = []
     for i in range(n):
         oc = rng.choice(OUTCOMES)
-        steps.append({"outcome": oc, "overlap_probe": oc == "blocked" and rng.random() < 0.7, "probes": rng.choice((1, 1, 2, 3))})
+        steps.append({"outcome": oc, "overlap_probe": oc == "blocked" and rng.random() < 0.7, "probes": rng.choice((1, 1, 2, 3)),
+                      "own_cb": oc != "blocked" and rng.random() < 0.4})
     return steps
 
 
@@ -66,11 +67,16 @@ ACTIONS = {
 }
 
 
-def body_for(tag, outcome, inproc_main_ident=None):
+def body_for(tag, outcome, inproc_main_ident=None, own_cb=False):
     if outcome.startswith("timed:"):
         ACTIONS[outcome] = ACTIONS["timed"].replace("1.035", outcome.split(":")[1])
     main = "threading.main_thread" if inproc_main_ident is None else f"(lambda: [t for t in threading.enumerate() if t.ident == {inproc_main_ident}][0])"
-    return BODY.replace("MAIN()", main + "()").format(tag=tag, action=ACTIONS[outcome].format(tag=tag))
+    action = ACTIONS[outcome].format(tag=tag)
+    if own_cb:
+        # the body listens on its own channel by callback (with an endmarker): the end of the execution then also has
+        # to deliver that endmarker
+        action = "channel.setcallback(lambda item: None, endmarker=None)\n" + action
+    return BODY.replace("MAIN()", main + "()").format(tag=tag, action=action)
 
 
 def run_history(res: Result, gw, steps, label, hid, main_ident=None):
@@ -82,7 +88,7 @@ def run_history(res: Result, gw, steps, label, hid, main_ident=None):
     for i, st in enumerate(steps):
         tag = hid * 100 + i
         oc = st["outcome"]
-        ch = gw.remote_exec(body_for(tag, oc, main_ident))
+        ch = gw.remote_exec(body_for(tag, oc, main_ident, own_cb=st.get("own_cb", False)))
         if oc.startswith("timed"):
             oc = "timed"
         try:
@@ -191,7 +197,7 @@ def run_shard(spec):
             todo = [(None, None)] * spec["runs"]
         else:
             lines = imodel.function_lines(gb.WorkerGateway._local_schedulexec, gb.WorkerGateway.executetask, gb.WorkerPool._try_send_to_primary_thread,
-                                          gb.WorkerPool.integrate_as_primary_thread, gb.WorkerPool.spawn, gb.WorkerPool._perform_spawn, gb.Reply.run)
+                                          gb.WorkerPool.integrate_as_primary_thread, gb.WorkerPool.spawn, gb.WorkerPool._perform_spawn, gb.Reply.run, gb.Channel.close, gb.ChannelFactory._no_longer_opened)
             res.info["sweep_lines"] = len(lines)
             sched_lines = set(imodel.function_lines(gb.WorkerGateway._local_schedulexec))
             todo = [(ln, k) for ln in lines for k in spec["ks"]]
